@@ -257,6 +257,36 @@ ConcatMut(w) ==
          {E("List", "AppendValue", i, <<MaxTok + 1>>, "") : i \in 1..3}
 
 ----------------------------------------------------------------------------
+(* Families "sort" and "sortA" (C09): the Sortable methods of List, Array   *)
+(* and Catalog interleaved with the mutations that a stale book-keeping of  *)
+(* "already sorted" would have to notice.  The driver replays every *pair*  *)
+(* of consecutive edges (history matters: SortValuesWithRanker followed by  *)
+(* SortValues, sort - remove - sort, ...).                                  *)
+
+SortLits == {<<>>, <<1>>, <<2, 0, 1>>, <<1, 1, 0>>}
+
+EventsSort(w) ==
+    CASE Len(w) = 0 -> {E("List", "Make", 0, <<>>, "V")} \cup {E("GoArray", "New", 0, <<l>>, "V") : l \in SortLits}
+      [] Len(w) = 1 /\ w[1].kind = "List" ->
+            SortEv("List", 1) \cup {E("List", "GetSize", 1, <<>>, "")} \cup
+            {E("List", "AppendValue", 1, <<t>>, "") : t \in Toks} \cup
+            {E("List", "SetValue", 1, <<1, t>>, "") : t \in Toks} \cup
+            {E("List", "RemoveValue", 1, <<i>>, "") : i \in {1, -1}}
+      [] Len(w) = 1 -> {E("Array", "MakeFromArray", 0, <<1>>, "V")}
+      [] Len(w) = 2 ->
+            SortEv("Array", 2) \cup {E("Array", "GetSize", 2, <<>>, "")} \cup
+            {E("Array", "SetValue", 2, <<1, t>>, "") : t \in Toks}
+      [] OTHER -> {}
+
+EventsSortA(w) ==
+    CASE Len(w) = 0 -> {E("Catalog", "Make", 0, <<>>, "A")}
+      [] Len(w) = 1 ->
+            SortEv("Catalog", 1) \cup {E("Catalog", "GetSize", 1, <<>>, "")} \cup
+            {E("Catalog", "SetValue", 1, <<t, v>>, "") : t \in Toks, v \in 0..1} \cup
+            {E("Catalog", "RemoveValue", 1, <<t>>, "") : t \in Toks}
+      [] OTHER -> {}
+
+----------------------------------------------------------------------------
 (* Family "queueseq": the quiescent fragment of the queue (C17/C18/C20).    *)
 
 QueueEvAt(w, id) ==
@@ -366,6 +396,8 @@ EvSets(w) ==
       [] Family = "map"      -> << EventsAssoc("Map", w) >>
       [] Family = "merge"    -> << EventsMerge(w), Costly(MergeMut(w)) >>
       [] Family = "queueseq" -> << EventsQueueSeq(w) >>
+      [] Family = "sort"     -> << EventsSort(w) >>
+      [] Family = "sortA"    -> << EventsSortA(w) >>
       [] Family = "alias"    -> EvSetsAlias(w)
       [] Family = "aliasA"   -> EvSetsAliasA(w)
 
